@@ -341,6 +341,15 @@ class RefRT(object):
             for s in struct.values():
                 self._collect(s, out)
 
+    def sync_item(self, fr, st):
+        _, site, kind, key = st
+        inst = (fr.path, "s", site)
+        self.items.append(("item", kind, key, inst))
+        o = self.item_outcome(kind, key, inst)
+        if o[0] == "val":
+            return o[1]
+        raise o[1]
+
     def sync_call(self, fr, st):
         _, site, nid, how = st
         callee = Frame(nid, fr.path + (site,), fr)
